@@ -814,16 +814,19 @@ struct Case {
 			const ChooserMark mk = mark();
 			const Obs origBefore = observe(a);
 			const size_t c0 = w.events.size();
+			w.projHash = 7;
 			perform(c, d);
+			const uint64_t ranOnCopy = w.projHash;
 			const size_t c1 = w.events.size();
 			const Obs origAfter = observe(a);
 			if (!origBefore.same(origAfter))
 				w.V("C17", fmt("original-disturbed-by-operation-on-copy|%s", origBefore.firstDifference(origAfter)), fmt("%s on the copy changed the original: {%s} -> {%s}", opName(d.op), origBefore.str().c_str(), origAfter.str().c_str()));
 			rewind(mk);
+			w.projHash = 7;
 			perform(a, d);
+			const uint64_t ranOnOriginal = w.projHash;
 			const size_t c2 = w.events.size();
-			auto strip = [&](size_t f, size_t t) { uint64_t h = 7; for (size_t k = f; k < t && k < w.events.size(); ++k) { Ev e = w.events[k]; if (e.kind == EV_LOG) continue; h = vh::mix(h, (uint64_t(e.kind) << 40) | (uint64_t(e.code) << 32) | (uint64_t(e.sid) << 24) | (uint64_t(e.inj) << 16) | (uint64_t(e.a) << 8) | e.b); h = vh::mix(h, e.tag & cfg::TAGMASK); } return h; };
-			if (strip(c0, c1) != strip(c1, c2))
+			if (ranOnCopy != ranOnOriginal)
 				w.V("C17", fmt("copy-diverged-from-original|op=%s", opName(d.op)), fmt("same operation and decisions: copy ran [%s] original ran [%s]", projStr(c0, c1).c_str(), projStr(c1, c2).c_str()));
 			const Obs fa = observe(a), fc = observe(c);
 			if (!fa.same(fc)) w.V("C17", fmt("copy-diverged-from-original|state|%s", fa.firstDifference(fc)), fmt("after %s: original {%s} copy {%s}", opName(d.op), fa.str().c_str(), fc.str().c_str()));
@@ -907,16 +910,7 @@ static Profile makeProfile(World& w) {
 	return p;
 }
 
-static uint64_t caseDigest(const World& w) {
-	uint64_t h = 1234567;
-	for (const Ev& e : w.events) {
-		if (e.kind == EV_LOG) continue;
-		if ((e.kind == EV_API_BEGIN || e.kind == EV_API_END) && (e.code == OP_ATTACH || e.code == OP_DETACH)) continue;
-		h = vh::mix(h, (uint64_t(e.kind) << 48) | (uint64_t(e.inst) << 40) | (uint64_t(e.code) << 32) | (uint64_t(e.sid) << 24) | (uint64_t(e.inj) << 16) | (uint64_t(e.a) << 8) | e.b);
-		h = vh::mix(h, e.tag & cfg::TAGMASK);
-	}
-	return h;
-}
+static uint64_t caseDigest(const World& w) { return w.caseHash; }
 
 static uint32_t nontrivialMask(const std::string& prop) {
 	if (prop == "C01") return F_TRANSITION;
@@ -950,6 +944,7 @@ static void writeReplay(const World& w, const std::string& path, const char* mod
 
 static void resetWorld(World& w) {
 	w.events.clear();
+	w.caseHash = 1234567;
 	w.viols.clear();
 	for (auto& i : w.inst) i = Inst{};
 	w.cur = nullptr; w.probe = false; w.curEvent = nullptr; w.tagCounter = 0; w.inUser = 0; w.inApi = false;
